@@ -277,17 +277,27 @@ def run(chk):
                      'ones are dropped)'),
                     ('sorted', 'the key depends on dict order of the bindings')):
     have = need in (vids if need in ('functor', 'args_map') else ids)
+    if need == 'sorted' and not have:
+      # the bindings may also be put in order with list.sort()
+      have = any(isinstance(c, ast.Call) and call_tail(c) == 'sort' and not c.args and
+                 not [k for k in c.keywords if k.arg == 'key']
+                 for c in walk_local(ck.fi.node))
     chk.ob('C04-R2', have, None, 'cache key depends on %s' % need, why, fi=ck.fi)
-  pair_ok = False
+  # every binding enters the key with its name AND its value: some
+  # comprehension over <bindings>.items() keeps both components of the pair
+  pair_ok = True
+  n_pairs = 0
   for x in walk_local(ck.fi.node):
-    if isinstance(x, (ast.GeneratorExp, ast.ListComp)):
+    if isinstance(x, (ast.GeneratorExp, ast.ListComp, ast.DictComp, ast.SetComp)):
       g = x.generators[0]
-      if isinstance(g.target, ast.Tuple) and len(g.target.elts) == 2 and \
-          'items' in norm(g.iter) and 'args_map' not in norm(g.iter):
+      if isinstance(g.target, ast.Tuple) and len(g.target.elts) == 2 and 'items' in norm(g.iter):
+        n_pairs += 1
         names = {e.id for e in g.target.elts if isinstance(e, ast.Name)}
-        used = {y.id for y in ast.walk(x.elt) if isinstance(y, ast.Name)}
-        if names <= used:
-          pair_ok = True
+        parts = [x.key, x.value] if isinstance(x, ast.DictComp) else [x.elt]
+        used = {y.id for p_ in parts for y in ast.walk(p_) if isinstance(y, ast.Name)}
+        if not names <= used:
+          pair_ok = False
+  pair_ok = pair_ok and n_pairs > 0
   chk.ob('C04-R2', pair_ok, None, 'both the argument name and its value enter the key',
          'only names (or only values) of the bindings are part of the key: '
          'F(A: B) and F(A: C) share a result', fi=ck.fi)
